@@ -128,6 +128,21 @@ def run(ctx):
             for cs, leaf in nl:
                 same_term(ob, leaf, spec_sentence(E, b // 8, WL), 'bit-string assembly of a %d-bit entropy (%d words)' % (b, w),
                           fme.where, vocab=VOCAB)
+    # the wallet entry point hands the caller's hex text to the encoder unchanged and keeps the sentence it got
+    ffe = p.get_function('base_wallet.BaseWallet.from_entropy_hex')
+    with ctx.obligation('C04.PASS', 'BaseWallet.from_entropy_hex', None, ffe.where) as ob:
+        summ = dict(X.DEFAULT_SUMMARIES)
+        summ['bip39.mnemonic_from_entropy'] = lambda ev_, fi, env, facts: (T.raw_op('MNEMONIC', env[fi.params[0]]), facts)
+        T.STR_OPS.add('MNEMONIC')
+        for cls in ('base_wallet.BaseWallet', 'paper_wallet.PaperWallet'):
+            e2 = Evaluator(p, 'ecdsa', summaries=summ)
+            hx = S('entropy_hex', type='str')
+            v, f = e2.call_function('base_wallet.BaseWallet.from_entropy_hex', [T.clsref(PKG + '.' + cls), hx, S('password', type='str'),
+                                                                                S('testnet', type='bool')])
+            for leaf in distinct_normal_leaves(v):
+                mn = T.obj_fields(leaf).get('mnemonic') if T.tag(leaf) == 'obj' else None
+                same_term(ob, mn, T.raw_op('MNEMONIC', hx), '%s.from_entropy_hex(h).mnemonic is mnemonic_from_entropy(h) for the caller\'s h, '
+                          'unchanged' % cls.split('.')[-1], ffe.where)
     with ctx.obligation('C04.CALLERS', 'sentence producers', None, fme.where) as ob:
         for q in ('base_wallet.BaseWallet.from_entropy_hex', 'bip85.BIP85DeterministicEntropy.bip39_mnemonic',
                   'bip39.mnemonic_from_entropy_bits'):
